@@ -23,8 +23,8 @@ type Body struct {
 	// store modules
 	Ops []OpT `json:"ops,omitempty"`
 	// map modules
-	Emit      Expr  `json:"emit,omitempty"`
-	SkipEmpty bool  `json:"skip_empty,omitempty"` // call skip_empty_output()
+	Emit      Expr `json:"emit,omitempty"`
+	SkipEmpty bool `json:"skip_empty,omitempty"` // call skip_empty_output()
 	// block-index modules
 	Keys []KeyT `json:"keys,omitempty"`
 	// deterministic failure at this block number (0 = never)
@@ -45,9 +45,10 @@ type KeyT struct {
 }
 
 // Expr: JSON array ["form", args...]; evaluates to a string.
-//   ["lit", s] | ["num"] | ["id"] | ["mod", k] | ["div", k] | ["in", name] | ["params"]
-//   ["get", storeIdx, "last"|"first"|"at", keyExpr, ord] (absent -> "~") | ["has", storeIdx, mode, keyExpr, ord] ("1"/"0")
-//   ["deltas", name] | ["cat", e...] | ["when", cond, expr]
+//
+//	["lit", s] | ["num"] | ["id"] | ["mod", k] | ["div", k] | ["in", name] | ["params"]
+//	["get", storeIdx, "last"|"first"|"at", keyExpr, ord] (absent -> "~") | ["has", storeIdx, mode, keyExpr, ord] ("1"/"0")
+//	["deltas", name] | ["cat", e...] | ["when", cond, expr]
 type Expr []any
 
 // Cond: ["true"] | ["every", k, r] (num % k == r) | ["idsuffix", s] | ["nonempty", expr] | ["not", cond] | ["ge", n] (num >= n)
@@ -185,17 +186,27 @@ func Test(c Cond, env Env) bool {
 }
 
 // helpers to write programs in Go
-func Lit(s string) Expr           { return Expr{"lit", s} }
-func Num() Expr                   { return Expr{"num"} }
-func ID() Expr                    { return Expr{"id"} }
-func Mod(k int) Expr              { return Expr{"mod", k} }
-func Div(k int) Expr              { return Expr{"div", k} }
-func In(name string) Expr         { return Expr{"in", name} }
-func Cat(es ...Expr) Expr         { out := Expr{"cat"}; for _, e := range es { out = append(out, []any(e)) }; return out }
-func Get(idx int, mode string, key Expr, ord int) Expr { return Expr{"get", idx, mode, []any(key), ord} }
-func Has(idx int, mode string, key Expr, ord int) Expr { return Expr{"has", idx, mode, []any(key), ord} }
-func Deltas(name string) Expr     { return Expr{"deltas", name} }
-func Every(k, r int) Cond         { return Cond{"every", k, r} }
-func IDSuffix(s string) Cond      { return Cond{"idsuffix", s} }
-func Not(c Cond) Cond             { return Cond{"not", []any(c)} }
-func NonEmpty(e Expr) Cond        { return Cond{"nonempty", []any(e)} }
+func Lit(s string) Expr   { return Expr{"lit", s} }
+func Num() Expr           { return Expr{"num"} }
+func ID() Expr            { return Expr{"id"} }
+func Mod(k int) Expr      { return Expr{"mod", k} }
+func Div(k int) Expr      { return Expr{"div", k} }
+func In(name string) Expr { return Expr{"in", name} }
+func Cat(es ...Expr) Expr {
+	out := Expr{"cat"}
+	for _, e := range es {
+		out = append(out, []any(e))
+	}
+	return out
+}
+func Get(idx int, mode string, key Expr, ord int) Expr {
+	return Expr{"get", idx, mode, []any(key), ord}
+}
+func Has(idx int, mode string, key Expr, ord int) Expr {
+	return Expr{"has", idx, mode, []any(key), ord}
+}
+func Deltas(name string) Expr { return Expr{"deltas", name} }
+func Every(k, r int) Cond     { return Cond{"every", k, r} }
+func IDSuffix(s string) Cond  { return Cond{"idsuffix", s} }
+func Not(c Cond) Cond         { return Cond{"not", []any(c)} }
+func NonEmpty(e Expr) Cond    { return Cond{"nonempty", []any(e)} }
